@@ -11,7 +11,7 @@ the demonic calculus `wpD`, which also covers every fault plan (C13).
 Model assumptions used: a write to the temp file is all-or-error (short writes are followed by an
 error, `execFail`), `rename` is atomic.
 -/
-import Cacache.Lemmas.Writer
+import Cacache.Lemmas.Commit
 
 namespace Cacache.C03
 open Prog
